@@ -61,8 +61,12 @@ def run(ctx):
             ps = ps[:cap // 2] + ctx.rng.sample(ps[cap // 2:], cap // 2)
         for p in ps:
             jobs.append((fam, p))
-    replies = family_replies(ctx.model, jobs)
-    for (fam, p), reps in zip(jobs, replies):
+    def in_chunks(jobs, size=40):
+        # the replies of a chunk (whole clause lists) are dropped before the next chunk is asked for
+        for k in range(0, len(jobs), size):
+            part = jobs[k:k + size]
+            yield from zip(part, family_replies(ctx.model, part))
+    for (fam, p), reps in in_chunks(jobs):
         name = fam['name']
         a = outcome(fam['build'], p, CNF)
         b = outcome(fam['build'], p, OPB)
